@@ -5,6 +5,8 @@ from lib.rsx import ExtractError
 # f32 library methods used by the point interpreter: method -> tag (uninterpreted meaning `fun1(tag, x)` / `fun2(tag, x, y)`)
 F1 = ['abs', 'sqrt', 'floor', 'ceil', 'round', 'sin', 'cos', 'tan', 'asin', 'acos', 'atan', 'exp', 'ln']
 F2 = ['atan2', 'rem_euclid']
+FX1 = ['trunc', 'fract', 'signum', 'exp2', 'log2', 'log10', 'sinh', 'cosh', 'tanh', 'cbrt', 'exp_m1', 'ln_1p', 'to_degrees', 'to_radians']
+FX2 = ['copysign', 'min', 'max', 'powf', 'hypot', 'div_euclid', 'log']
 
 # The reference meaning of each opcode base name for f32 evaluation, written from the opcode documentation of
 # compiler/op.rs (NOT from the interpreter text): base -> (unary meaning of x | binary meaning of a, b)
@@ -108,6 +110,20 @@ def generate(enums, kinds, bulk_kinds=()):
         A('pub assume_specification [f32::%s] (x: f32) -> (r: f32) ensures r == fun1(T_%s(), x);' % (f, f))
     for f in F2:
         A('pub assume_specification [f32::%s] (x: f32, y: f32) -> (r: f32) ensures r == fun2(T_%s(), x, y);' % (f, f))
+    # further f32 library methods an edited interpreter might call: declared (uninterpreted) so that such an edit is DECIDED
+    # (it then fails the arm's obligation unless the meaning is unchanged) instead of putting the function outside the subset
+    for i, f in enumerate(FX1):
+        A('pub open spec fn T_%s() -> int { %d }' % (f, 100 + i))
+        A('pub assume_specification [f32::%s] (x: f32) -> (r: f32) ensures r == fun1(T_%s(), x);' % (f, f))
+    for i, f in enumerate(FX2):
+        A('pub open spec fn T_%s() -> int { %d }' % (f, 200 + i))
+        A('pub assume_specification [f32::%s] (x: f32, y: f32) -> (r: f32) ensures r == fun2(T_%s(), x, y);' % (f, f))
+    A('/// std: `recip` is `1.0 / self`')
+    A('pub assume_specification [f32::recip] (x: f32) -> (r: f32) ensures r == 1.0f32.div_spec(x);')
+    A('pub uninterp spec fn powi_spec(a: f32, n: int) -> f32;')
+    A('pub assume_specification [f32::powi] (x: f32, n: i32) -> (r: f32) ensures r == powi_spec(x, n as int);')
+    A('pub uninterp spec fn mul_add_spec(a: f32, b: f32, c: f32) -> f32;')
+    A('pub assume_specification [f32::mul_add] (x: f32, a: f32, b: f32) -> (r: f32) ensures r == mul_add_spec(x, a, b);')
     f32specs = '\n'.join(L)
     # reference semantics, once per evaluator kind
     L = []
